@@ -373,6 +373,25 @@ fn invlpgb_misc(rep: &mut Report, r: &mut Rng) {
     if ok != ((a as u32) < 16) {
         rep.violation("InvlpgbFlushBuilder::asid|range-check-wrong", J::U(a as u64));
     }
+    // a rejected ASID leaves the builder as it was: the requests then carry the ASID accepted before, or none
+    for prior in [None, Some((r.next() % 16) as u16)] {
+        let bad_asid = 16 + (r.next() % 0xfff0) as u16;
+        let (rej, evs) = trapemu::trapped(|| {
+            let mut b = inv.build();
+            if let Some(p) = prior {
+                let _ = unsafe { b.asid(p) };
+            }
+            let rej = unsafe { b.asid(bad_asid) }.is_err();
+            b.flush();
+            rej
+        });
+        rep.eval();
+        let exp_valid = prior.is_some() as u64;
+        let exp_asid = prior.unwrap_or(0) as u64;
+        if !rej || evs.len() != 1 || evs[0].kind != K::Invlpgb || (evs[0].val >> 2) & 1 != exp_valid || evs[0].val3 & 0xffff != exp_asid {
+            rep.violation("InvlpgbFlushBuilder::asid|rejected-asid-still-used-by-the-flush", J::obj(vec![("accepted_before", prior.map(|p| J::U(p as u64)).unwrap_or(J::Null)), ("rejected", J::U(bad_asid as u64)), ("events", evj(&evs))]));
+        }
+    }
     if inv.nasid() != 16 || inv.tlb_flush_nested() {
         rep.violation("Invlpgb|accessors-wrong", J::Null);
     }
